@@ -1,3 +1,5 @@
+import json
+
 from vlib import Check
 
 PID = "C18"
@@ -7,13 +9,14 @@ MANIFEST = dict(
          "MarshalToMsg/UnmarshalFromMsg pairs, ProxyBaseConfig.Complete and the proxy type registry are regenerated from "
          "pkg/config/v1/*.go and pkg/msg/msg.go on every run (translator T3): for every registered proxy type and every loaded+completed "
          "client configuration the server's NewProxyConfigurerFromMsg(MarshalToMsg(c)) equals c on every field except the golden client-only "
-         "ones (one generic proof script), no acted field lacks a marshal source / unmarshal destination (reflective), accepted "
+         "ones (one generic proof script), every command-line flag writes the field whose file-format key the pinned table names "
+         "(reflective over flags.go, translator unit T7F), templated documents render to the written-out document, no acted field lacks a marshal source / unmarshal destination (reflective), accepted "
          "configurations have ports in range, allowed enumerations and no custom domain under subDomainHost in any ASCII letter case, "
          "PortsRangeSlice / ParseRangeNumbers / number pairs / BandwidthQuantity literals round-trip. Tied to the code by T3 and by a "
          "differential run of the real MarshalToMsg, NewProxyConfigurerFromMsg, ValidateProxyConfigurerForClient, ValidatePort, "
          "PortsRangeSlice, ParseRangeNumbers, parseNumberRangePair (through RenderWithTemplate) and BandwidthQuantity against the model.",
     note="Observed, not proved (residue): agreement of the TOML / YAML / JSON loaders (go-toml, k8s yaml, encoding/json) and strict-mode "
-         "rejection of unknown fields at every nesting level, text/template rendering, cobra/pflag flag binding - third-party code, "
+         "rejection of unknown fields at every nesting level (client common, proxies, visitors, server), text/template execution, cobra/pflag parsing - third-party code, "
          "exercised by the harness on generated documents in both strict modes and compared structurally on the Go side. "
          "strconv.ParseFloat and float arithmetic are an oracle (Section-style argument) in the bandwidth theorems; strconv.Itoa/ParseInt "
          "are modelled with Coq's Decimal library and compared on every run. ValidateAnnotations (k8s IsQualifiedName) and client plugin "
@@ -33,15 +36,23 @@ def recipe(c: Check):
     # sanity of the run itself: the branches the property names must have been reached
     cnt = c.cov.get("coq_counters", {}).get("config", {})
     if st is not None and cnt:
-        for name, least in (("NROUNDOK", 100), ("NDOMAINBELONGS", 5), ("NDOMAINCASEONLY", 2), ("NINVALID", 50), ("NUNKNOWNTYPE", 5)):
+        for name, least in (("NROUNDOK", 100), ("NDOMAINBELONGS", 5), ("NDOMAINCASEONLY", 2), ("NINVALID", 50), ("NUNKNOWNTYPE", 5),
+                            ("NTEMPLATEOK", 30)):
             if cnt.get(name, 0) < least:
                 c.broken.append(dict(kind="coverage", name="counter %s = %s < %s: the generator no longer reaches a branch the property names"
                                      % (name, cnt.get(name, 0), least), detail=""))
     if st is not None:
         f = st.get("formats") or {}
-        for name, least in (("documents", 50), ("strict_unknown_rejected", 20)):
-            if f.get(name, 0) < least:
-                c.broken.append(dict(kind="coverage", name="formats counter %s = %s < %s" % (name, f.get(name, 0), least), detail=""))
+        fl = f.get("flags") or {}
+        tp = f.get("templates") or {}
+        for src, name, least in ((f, "documents_client", 50), (f, "documents_server", 20), (f, "strict_unknown_rejected", 100),
+                                 (f, "file_loads", 50), (fl, "proxy_commands", 50), (fl, "visitor_commands", 20),
+                                 (fl, "server_commands", 20), (tp, "documents", 50)):
+            if src.get(name, 0) < least:
+                c.broken.append(dict(kind="coverage", name="driver counter %s = %s < %s" % (name, src.get(name, 0), least), detail=""))
+        # observations recorded, not alarms (reported in design/C18.md): kept visible in the evidence
+        c.notes.append("flag/file default divergences observed: %s" % json.dumps(fl.get("default_divergences", {}), sort_keys=True))
+        c.notes.append("--dashboard_tls_mode true: %s" % fl.get("dashboard_tls_mode_true"))
     return c.finish(
         rule="config driver: (a) generated client configurations over all eight proxy types (unicode names, nil vs empty maps/slices, boundary "
              "ports, mixed-case domains around several subDomainHost values, bandwidth literals, plugins) -> real Complete, MarshalToMsg, JSON "
@@ -50,7 +61,10 @@ def recipe(c: Check):
              "(b) the same logical configuration rendered as TOML, YAML and JSON by the harness's emitters and loaded by the real LoadConfigure / "
              "LoadClientConfig in strict and non-strict mode, structures compared, unknown fields injected at every nesting level; (c) real "
              "ValidateProxyConfigurerForClient / ValidatePort vs Model/Validate.v; (d) PortsRangeSlice, ParseRangeNumbers, parseNumberRangePair via "
-             "RenderWithTemplate, BandwidthQuantity, strconv vs Model/Literals.v; (e) cobra flags vs file. distinct = distinct case text; "
+             "RenderWithTemplate, BandwidthQuantity, strconv vs Model/Literals.v; (e) the real cobra flag sets (frpc proxy and visitor sub-commands with the "
+             "inherited client flags, frps) built in-process, ParseFlags + Complete, vs the same logical configuration loaded from a file; "
+             "(f) generated template documents (text, .Envs, range over parseNumberRangePair / parseNumberRange) through RenderWithTemplate vs "
+             "Model/Template.v, and templated configuration files vs the written-out ones. distinct = distinct case text; "
              "non-trivial = every case (each carries a generated input)",
         assumptions=["strconv.ParseFloat / float product is an oracle: bandwidth theorems hold for any such function; the harness fills it with observed values",
                      "TOML/YAML/JSON parsers, text/template, cobra/pflag are third-party: their agreement is observed on generated documents, not proved",
